@@ -464,7 +464,7 @@ SPECS['C19'] = dict(
     functions=['billiard.popen_fork.Popen.poll', 'Popen.wait', 'billiard.process.BaseProcess.start', 'join', 'is_alive', 'exitcode', '_bootstrap'],
     bounds={'quick': '3 successive polls over a script of 5 waitpid outcomes; all 16-bit statuses; exit codes -3..300; signals 1..64; forkserver: codes {0,1,2,3,77,255}, the 8 status bytes split at any position, EOF / partial data / read error',
             'thorough': '4 polls; forkserver: codes {0,1,2,3,77,255}, the 8 status bytes split at any position, EOF / partial data / read error'},
-    outside=['fork/exec themselves, spawn and forkserver child start-up', 'the forkserver\'s own serving loop (forkserver.main/_serve_one: real sockets and fd passing)', 'join(timeout) wall-clock'],
+    outside=['fork/exec themselves, spawn and forkserver child start-up', 'the forkserver\'s sockets, descriptor passing and process creation themselves (its serving loop runs over a fake kernel)', 'join(timeout) wall-clock'],
     assumptions=['wait-status macros are pure-Python bit operations validated against os.W* on all 65536 statuses every run',
                  'waitpid without WUNTRACED never reports stopped/continued statuses', 'logging re-initialisation, after-fork hooks and '
                  'exit functions in _bootstrap are stubbed'],
@@ -483,6 +483,12 @@ SPECS['C19'] = dict(
         ch('forkserver-poll', 'harness.c19', 'h_forkserver_poll', 'real popen_forkserver.Popen.poll + forkserver.read_unsigned over a scripted sentinel pipe: None (and no read) until the '
            'child has ended; the code the child wrote, however the 8 bytes are split; a non-zero status when the child was killed before writing all of it (EOF, '
            'partial data, read error); stable afterwards', timeout=(200, 900), nontrivial_witness=True),
+        ch('forkserver-serve', 'harness.c19', 'h_forkserver_serve', 'real forkserver.main / _serve_one / write_unsigned over a fake kernel (signal table, listener, selector, fork returning 0 or a pid, '
+           'descriptors, writes accepting any non-empty prefix): the new child restores the SIGCHLD disposition the server was started with before the process object runs (so that it can '
+           'reap children of its own), has closed the server\'s descriptors, keeps the received descriptors apart, and writes its pid and then the exit code of the process object to the '
+           'status pipe (no code when it failed before it had one: the parent reports 255); the server ignores SIGCHLD, closes the request connection and exits when the last client is gone',
+           timeout=(200, 900)),
+        twin('forkserver-serve', 'harness.c19', 'h_forkserver_serve_twin', 'a child whose status needed more than two writes exists'),
         ch('spawn-launch', 'harness.c19', 'h_spawn_launch', 'real popen_spawn_posix.Popen._launch over a fake kernel (fd table, pipes, inherited handles): the sentinel\'s only write end '
            'lives in the child (ready exactly when the child is gone), the child inherits its data pipe, the tracker fd and the handles asked for, the parent closes the rest and writes '
            'the preparation data', timeout=(120, 600), nontrivial_witness=True),
